@@ -162,6 +162,14 @@ func (d *clientStreamDownloader) runLowLatency(ctx context.Context) error {
 		}
 
 		if pl.PreloadHint == nil {
+			// a playlist that has ended advertises no further part:
+			// the stream is over, like after the last segment in the other modes
+			if pl.Endlist {
+				d.segmentQueue.push(nil)
+				<-ctx.Done()
+				return fmt.Errorf("terminated")
+			}
+
 			return fmt.Errorf("preload hint disappeared")
 		}
 	}
